@@ -70,6 +70,11 @@ UnOps == {"wneg", "not", "revbits", "lz", "tz", "popcount", "bitlen", "invring",
 ShiftOps == {"shl", "shr", "ashr", "rotl", "rotr", "oshl", "oshr"}
 ImmOps == {"pow", "root", "setbit1", "setbit0", "load"}
 ModOps == {"reduce", "addmod", "mulmod"}                  \* modulus = old value of the destination register
+\* conversions through a Uint of ANOTHER width k and back (wrapping_to / saturating_to / uint_try_to)
+ConvOps == {"wto", "sto", "cto"}
+ConvT == {1, 3, 63, 65, 200}
+MoreFlagOps == {"cnmo"}                                    \* checked_next_multiple_of: None leaves the register alone
+MoreImmOps == {"powmod"}                                   \* a^k mod (old destination)
 
 \* <<value written to the destination, observation>>;  a, b operands, m old destination, k immediate, n width
 Apply(op, a, b, m, k, n) ==
@@ -122,11 +127,22 @@ Apply(op, a, b, m, k, n) ==
     [] op = "reduce" -> <<IF IsZero(m) THEN Zero ELSE DivMod(a, m)[2], FALSE>>
     [] op = "addmod" -> <<IF IsZero(m) THEN Zero ELSE DivMod(Add(a, b), m)[2], FALSE>>
     [] op = "mulmod" -> <<IF IsZero(m) THEN Zero ELSE DivMod(Mul(a, b), m)[2], FALSE>>
+    \* Uint<n> -> Uint<k> -> Uint<n>: the flag says whether the first leg was lossless
+    [] op = "wto" -> <<Mod2(Mod2(a, k), n), Lt2(a, k)>>
+    [] op = "sto" -> <<IF Lt2(a, k) THEN a ELSE (IF k <= n THEN MaxU(k) ELSE a), Lt2(a, k)>>
+    [] op = "cto" -> IF Lt2(a, k) THEN <<a, TRUE>> ELSE <<m, FALSE>>
+    [] op = "cnmo" -> IF IsZero(b) THEN <<m, FALSE>>
+                      ELSE LET r == DivMod(a, b)[2]
+                               v == IF IsZero(r) THEN a ELSE Add(a, Sub(b, r))
+                           IN IF Lt2(v, n) THEN <<v, TRUE>> ELSE <<m, FALSE>>
+    [] op = "powmod" -> <<IF Le(m, One) THEN Zero
+                          ELSE FoldL(LAMBDA acc, i : DivMod(Mul(acc, a), m)[2], One, [i \in 1..k |-> i]), FALSE>>
 
-Ops == BinOps \cup FlagOps \cup DivOps \cup UnOps \cup ShiftOps \cup ImmOps \cup ModOps
+Ops == BinOps \cup FlagOps \cup DivOps \cup UnOps \cup ShiftOps \cup ImmOps \cup ModOps \cup ConvOps \cup MoreFlagOps \cup MoreImmOps
 
 Imms(op, n) == IF op \in ShiftOps \/ op \in {"setbit1", "setbit0"} THEN ShiftAmts(n)
-               ELSE IF op = "pow" THEN SmallImm
+               ELSE IF op \in ConvOps THEN ConvT
+               ELSE IF op \in {"pow", "powmod"} THEN SmallImm
                ELSE IF op = "root" THEN RootImm
                ELSE IF op = "load" THEN {0, 1, 2, 255, 256, 65535}
                ELSE {0}
@@ -149,9 +165,9 @@ Do(op, d, s1, s2, k) ==
   /\ UNCHANGED bits
 
 Next ==
-  \/ \E op \in BinOps \cup FlagOps \cup DivOps \cup ModOps, d \in Reg, s1 \in Reg, s2 \in Reg : Do(op, d, s1, s2, 0)
+  \/ \E op \in BinOps \cup FlagOps \cup MoreFlagOps \cup DivOps \cup ModOps, d \in Reg, s1 \in Reg, s2 \in Reg : Do(op, d, s1, s2, 0)
   \/ \E op \in UnOps, d \in Reg, s1 \in Reg : Do(op, d, s1, s1, 0)
-  \/ \E op \in ShiftOps \cup ImmOps, d \in Reg, s1 \in Reg : \E k \in Imms(op, bits) : Do(op, d, s1, s1, k)
+  \/ \E op \in ShiftOps \cup ImmOps \cup ConvOps \cup MoreImmOps, d \in Reg, s1 \in Reg : \E k \in Imms(op, bits) : Do(op, d, s1, s1, k)
 
 Spec == Init /\ [][Next]_vars
 
@@ -212,6 +228,13 @@ NativeOK ==
          [] op = "npow2" -> IF a = 0 THEN (IF n > 0 THEN f /\ v = 1 ELSE ~f)
                             ELSE LET p == CHOOSE e \in 0..n : 2 ^ e >= a /\ (e = 0 \/ 2 ^ (e - 1) < a)
                                  IN f = (p < n) /\ (f => v = 2 ^ p)
+         [] op = "wto" -> v = (IF k >= 31 THEN a ELSE (a % 2 ^ k) % M) /\ f = (k >= 31 \/ a < 2 ^ k)
+         [] op = "sto" -> LET cap == IF k >= 31 THEN M - 1 ELSE 2 ^ k - 1 IN
+                          v = (IF a <= cap THEN a ELSE cap) /\ f = (a <= cap)
+         [] op = "cto" -> LET fits == k >= 31 \/ a < 2 ^ k IN f = fits /\ v = (IF fits THEN a ELSE m)
+         [] op = "cnmo" -> IF b = 0 THEN ~f /\ v = m
+                           ELSE LET x == ((a + b - 1) \div b) * b IN f = (x < M) /\ v = (IF x < M THEN x ELSE m)
+         [] op = "powmod" -> v = (IF m <= 1 THEN 0 ELSE IF k = 0 THEN 1 ELSE (a ^ k) % m)
          [] OTHER -> TRUE
 
 TypeOK == bits \in Widths /\ DOMAIN reg = Reg
